@@ -1,2 +1,3 @@
 pub mod c07;
 pub mod c08;
+pub mod c16;
